@@ -48,9 +48,9 @@ def gen_net(rng, feature=None):
     pool_at = rng.randrange(n_conv) if rng.random() < 0.3 else None
     i = 0
     while i < n_conv:
-        kind = rng.choice(['conv3', 'conv3', 'pw', 'dwsep', 'dil0', 'dil1', 'conv3s2'])
-        if feature in ('dil0', 'dil1', 'asym') and i == 0:
-            kind = {'dil0': 'dil0', 'dil1': 'dil1', 'asym': 'conv3'}[feature]
+        kind = rng.choice(['conv3', 'conv3', 'pw', 'dwsep', 'dil0', 'dil1', 'conv3s2', 'dwdil0', 'dwdil1'])
+        if feature in ('dil0', 'dil1', 'asym', 'dwdil') and i == 0:
+            kind = {'dil0': 'dil0', 'dil1': 'dil1', 'asym': 'conv3', 'dwdil': rng.choice(['dwdil0', 'dwdil1'])}[feature]
         layer = {'groups': 1, 'stride': [1, 1], 'dil': [1, 1], 'bias': rng.random() < 0.6, 'bn': rng.random() < 0.3}
         if kind == 'conv3':
             p = rng.choice([0, 1])
@@ -68,6 +68,13 @@ def gen_net(rng, feature=None):
         elif kind == 'dil1':
             k, d = rng.choice([(2, 2), (3, 2), (2, 3)])
             layer.update(cout=rng.randint(2, 5), k=[1, k], dil=[1, d], pad=[0, 0])
+        elif kind in ('dwdil0', 'dwdil1'):                 # depthwise AND dilated (one kernel row per channel)
+            k, d = rng.choice([(2, 2), (3, 2), (2, 3)])
+            p = rng.choice([0, d * (k - 1) // 2])
+            if kind == 'dwdil0':
+                layer.update(cout=c, groups=c, k=[k, 1], dil=[d, 1], pad=[p, 0])
+            else:
+                layer.update(cout=c, groups=c, k=[1, k], dil=[1, d], pad=[0, p])
         if feature == 'asym' and i == 0:
             layer['pad'] = rng.choice([[1, 0], [0, 1]])
         if feature == 'sym':
@@ -94,6 +101,14 @@ def gen_net(rng, feature=None):
                       'k': [3, 3], 'pad': [1, 1]})
         c, hh, ww = 3, out_size(hh, 3, 2, 1, 1), out_size(ww, 3, 2, 1, 1)
     fcs = [{'out': rng.randint(2, 6), 'bias': rng.random() < 0.6} for _ in range(rng.choice([1, 1, 2]))]
+    if feature == 'fconv' or (feature is None and rng.random() < 0.2):
+        # fully convolutional: the network ends in a Conv2d (no ReLU after it), its output are the logits
+        kh = rng.choice([1, min(3, hh), hh])
+        kw = rng.choice([1, min(3, ww), ww])
+        convs.append({'groups': 1, 'stride': [1, 1], 'dil': [1, 1], 'bias': rng.random() < 0.6, 'bn': False,
+                      'cout': rng.randint(2, 5), 'k': [kh, kw], 'pad': rng.choice([[0, 0], [0, 0], [kh // 2, kw // 2]]),
+                      'final': True})
+        fcs = []
     bits = rng.choice([[8], [4], [2], [2, 4, 8], [2, 4, 8], [4, 8]])
     abits = rng.choice([[8], [4], [2], [2, 4, 8], [2, 4, 8], [2, 8]])
     spec = {'cin': cin, 'h': h, 'w': w, 'convs': convs, 'fcs': fcs, 'wp': bits, 'ap': abits,
@@ -121,6 +136,10 @@ def spec_features(spec):
             f.add('no-bias')
         if l['groups'] > 1:
             f.add('depthwise')
+            if l['dil'] != [1, 1]:
+                f.add('depthwise-dilation')
+        if l.get('final'):
+            f.add('fully-conv')
         if l['stride'] != [1, 1]:
             f.add('stride')
         if l['bn']:
@@ -203,6 +222,8 @@ def build_net(spec):
                 x = getattr(self, 'c%d' % i)(x)
                 if l['bn']:
                     x = getattr(self, 'bn%d' % i)(x)
+                if l.get('final'):
+                    return x
                 x = Fn.relu(x)
                 if l.get('pool'):
                     x = getattr(self, 'pool%d' % i)(x)
@@ -292,8 +313,13 @@ def chan_lists(t, cap=None):
 def layer_feature(fl):
     """class of a layer for finding keys and histograms, e.g. 'dilation-axis1+no-bias'"""
     import torch.nn as nn
+    from plinio.methods.mps.quant.quantizers import DummyQuantizer
     f = []
     if isinstance(fl, nn.Conv2d):
+        if isinstance(getattr(fl, 'out_quantizer', None), DummyQuantizer):
+            f.append('last-conv')
+        if fl.groups > 1:
+            f.append('depthwise')
         if fl.padding[0] != fl.padding[1]:
             f.append('asymmetric-padding')
         if fl.dilation[0] != 1:
@@ -364,7 +390,12 @@ def _run_case(case, res):
             except Exception as e2:
                 where, feat, exc = n, layer_feature(fq.get_submodule(n)), e2
                 break
-        viol('C14:%s:integerize-raises:%s:%s' % (bk, exc_key(exc), feat),
+        key = 'C14:%s:integerize-raises:%s:%s' % (bk, exc_key(exc), feat)
+        if bk == 'match' and 'depthwise' in feat and 'dilation' in feat and isinstance(exc, IndexError):
+            key = 'C14:match:depthwise-dilation'               # _pad_dilation_in_weight loops over all in_channels
+        elif bk == 'maupiti' and 'last-conv' in feat and 'no-bias' in feat and isinstance(exc, TypeError):
+            key = 'C14:maupiti:last-layer-conv:no-bias'        # zero-point of a bias-free final conv
+        viol(key,
              'integerize_arch(%s) raises %s: %s (layer %s, %s)' % (bname, exc_key(exc), str(exc)[:120], where, feat), where)
         return
     # ---- run the integer network on integer inputs, capture what every integer layer saw and produced
@@ -630,7 +661,7 @@ def check_layer(case, res, viol, fq, im, n, fl, L, cls, feat, io_n, sb, sp, is_l
                 logit = F(yf)
                 fl_slack = (nterms + 8) * (ab_ * sw[c] * gx + abs(nbq[c]) * sx * sw[c]) / 2 ** 23
                 stab = abs(a_) * sw[c] * abs(gx - sx)
-                if bname == 'MATCH' or (is_conv and bname == 'MAUPITI'):
+                if bname == 'MATCH':
                     got = F(yi) * sx * sw[c]
                     tol = stab + fl_slack + (abs(a_) + abs(nbq[c])) * sx * sw[c] / 2 ** 23      # acc + int_bias in float32
                 else:
@@ -757,17 +788,20 @@ def check_layer(case, res, viol, fq, im, n, fl, L, cls, feat, io_n, sb, sp, is_l
         add('fq eps=%s p=%d clip=%s sx=%s gx=%s sw=%s nb=%s acc=%s' % (rs(eps), pout, rs(clipy), rs(sx), rs(gx), rl(sw), rl(nb), rl2(accM)),
             kind='fq', real=chan_lists(y_fq, CAP), skip=skip, top=int(top_real), what='fake-quantized layer: integer image of the output')
     else:
-        if bname == 'MATCH' or is_conv:
+        if bname == 'MATCH':
             # acc + int_bias is a float32 addition: exact below 2^24 only
             skip = [[abs(int(a)) + abs(nb[c]) >= 2 ** 24 for a in accM[c]] for c in range(cout)]
             add('matchlast nb=%s acc=%s' % (rl(nb), rl2(accM)), kind='ints2', real=chan_lists(y_int, CAP), skip=skip,
                 what='last layer output (acc + int_bias)')
         else:
-            accp = Fn.linear(x_int.double(), Wi.double())
-            wsum = [int(v) for v in Wi.double().sum(1).tolist()]
+            if is_conv:        # as the repaired layer computes it: its own padding (value in_offset), no bias
+                accp = Fn.conv2d(L.pad(x_int).double(), Wi.double(), None, L.stride, 0, L.dilation, L.groups)
+            else:
+                accp = Fn.linear(x_int.double(), Wi.double())
+            wsum = [int(v) for v in Wi.double().reshape(cout, -1).sum(1).tolist()]
             add('maupitilast pin=%d sh=%d s=%s nb=%s wsum=%s acc=%s' % (pin, sh, rl(S), rl(nb), rl(wsum), rl2(chan_lists(accp, CAP))),
                 kind='maupitilast', real=chan_lists(y_int, CAP), what='last MAUPITI layer output',
-                mag=[[float(Fr(int(ab) * S[c] + (abs(nb[c]) + 2 ** pin * sum(abs(int(v)) for v in Wi[c].tolist())) * S[c], 2 ** sh))
+                mag=[[float(Fr(int(ab) * S[c] + (abs(nb[c]) + 2 ** pin * sum(abs(int(v)) for v in Wi[c].reshape(-1).tolist())) * S[c], 2 ** sh))
                       for ab in chan_lists(absacc, CAP)[c]] for c in range(cout)])
 
 
@@ -986,7 +1020,7 @@ MATCH_OPTS = [{}, {'scale_bit': 16, 'shift_pos': 16}, {'scale_bit': 24, 'shift_p
 def gen_cases(rng, quick, mult=1):
     cases = []
     n = (60 if quick else 2000) * mult
-    feats = ['dil0', 'dil1', None, None, 'sym', None]
+    feats = ['dil0', 'dil1', None, 'dwdil', 'sym', 'fconv', None, None]
     for i in range(n):
         spec = gen_net(rng, feats[i % len(feats)])
         post = POSTS[rng.randrange(len(POSTS))]
@@ -1025,8 +1059,8 @@ def observe_float_guard(chk):
 def run(chk):
     from .. import common
     chk.rule = ('networks: 1-4 conv blocks from {3x3 (pad 0/1), 3x3 stride 2, 1x1, depthwise 3x3 + pointwise, dilated (k,1) '
-                'on axis 0, dilated (1,k) on axis 1, asymmetric padding} with bias on/off, BatchNorm folded by MPS, optional '
-                'MaxPool, flatten, 1-2 Linear (bias on/off); weight/activation precisions drawn from {2,4,8} per layer '
+                'on axis 0, dilated (1,k) on axis 1, depthwise dilated on either axis, asymmetric padding} with bias on/off, BatchNorm folded by MPS, optional '
+                'MaxPool, flatten, 1-2 Linear (bias on/off) or, fully convolutional, a final Conv2d (bias on/off) giving the logits; weight/activation precisions drawn from {2,4,8} per layer '
                 '(seeded one-hot alpha), random PACT clip values; MATCH with 5 scale_bit/shift_pos options, MAUPITI; random '
                 'inputs in [0,1); every integer layer compared on the activations the integer network itself produced; 40% of the '
                 'nets carry large-magnitude (also BN-folded, small running variance) biases with a dominating negative / '
